@@ -73,7 +73,8 @@ class ExecCall(ExecExpr):
             done = False
             for s0, obj in outs:
                 if isinstance(obj, V) and isinstance(obj.kind, tuple) and obj.kind[0] == "ref" and obj.cls \
-                        and self.w.find_member(obj.cls, tgt.attr)[1] is None and self.w.field_decl(obj.cls, tgt.attr):
+                        and self.w.find_member(obj.cls, tgt.attr)[1] is None and self.w.field_decl(obj.cls, tgt.attr) \
+                        and self.w.base_kind(self.w.field_decl(obj.cls, tgt.attr)[1])[0] in ("seq", "set"):
                     done = True
                     for s, args in self.eval_seq(node.args, s0):
                         cur = self.read_field(s, obj, tgt.attr)
